@@ -43,7 +43,7 @@ def ulp_diff(a: float, b: float) -> float:
 
 def scenarios(ctx):
     quick = ctx.quick
-    consts = dict(MaxL=5 if quick else 7, MaxCS=3 if quick else 4, Ws="{1, 2, 3}" if quick else "{1, 2, 3, 4}", Pres='{"absent"}', Faults="{0}", Wheres='{"reader"}', Deviations="{}")
+    consts = dict(MaxL=5 if quick else 7, MaxCS=3 if quick else 4, Ws="{1, 2, 3}" if quick else "{1, 2, 3, 4}", Pres='{"absent"}', Faults="{0}", Wheres='{"reader"}', Kills='{"none"}', Deviations="{}")
     res = tlc.run("CreatePipeline", tlc.make_cfg(constants=consts, invariants=["TypeOK", "ExactOnSuccess", "FailStop", "PrintDone"], properties=["Termination"]),
                   coverage=True, timeout=1500)
     ctx.add_tlc("CreatePipeline fault-free scenarios, all schedules", res, constants=consts)
@@ -51,7 +51,7 @@ def scenarios(ctx):
     for act in ("SeqChunk", "SeqFinal", "MRead", "Work", "MMapDone", "MPutEOQ", "MJoin", "WInit", "WGet", "Load"):
         ctx.require(res.coverage.get(act, (0, 0))[1] > 0, f"action {act} never taken")
     out = set()
-    for c, outcome, loaded, dirstate, ids in res.printed("done"):
+    for c, outcome, loaded, dirstate, ids, _killed in res.printed("done"):
         if not c["EmptyCentre"] and str(outcome) == "success":
             out.add((c["L"], c["CS"], c["W"]))
     ctx.require(len(out) > 10, "too few successful scenarios from TLC")
@@ -78,7 +78,8 @@ def base_columns(L, seed, dtype, degrees):
     w = idx.astype(dtype if dtype != "i8" else "i8")  # record id, exact in f4 for small L
     z = (0.1 + rng.uniform(0, 0.9, L)).astype("f8" if dtype == "i8" else dtype)
     pid = side.astype("i8")
-    return dict(ra=ra, dec=dec, w=w, z=z, pid=pid)
+    # a stale patch column that disagrees with the centres (documented: ignored when patch_centers is given)
+    return dict(ra=ra, dec=dec, w=w, z=z, pid=pid, pid_stale=(1 - side).astype("i8"))
 
 
 def write_source(fmt, cols, workdir, groups=None):
@@ -178,9 +179,11 @@ def run_one(yaw, root, n, fmt, L, CS, W, dtype, has_w, has_z, degrees, mode, gro
         kw["weight_name"] = "w"
     if has_z:
         kw["redshift_name"] = "z"
-    if mode == "apply":
+    if mode in ("apply", "apply_both"):
         pts = np.deg2rad([[10.5, 0.0], [14.5, 0.0]])
         kw["patch_centers"] = yaw.AngularCoordinates(pts)
+        if mode == "apply_both":
+            kw["patch_name"] = "pid_stale"
     elif mode == "divide":
         kw["patch_name"] = "pid"
     else:
@@ -227,7 +230,7 @@ def run(ctx) -> None:
             dtype = DTYPES[(n // 4) % 3]
             has_w, has_z = [(True, True), (True, False), (False, True), (False, False)][(n // 3) % 4]
             degrees = (n % 5) != 0
-            mode = ["apply", "divide", "apply", "create"][(n // 2) % 4]
+            mode = ["apply", "divide", "apply", "create", "apply_both", "divide", "apply", "create"][(n // 2) % 8]
             if mode == "create" and L < 4:
                 mode = "apply"
             groups = None
